@@ -1160,7 +1160,8 @@ async fn serve_session(
                 }
             }
             "get-candidate" => {
-                let e = staged.clone().unwrap_or_else(|| st.lock().unwrap().eph.clone());
+                // without an open ephemeral instance the candidate is the static one: no ephemeral data in it
+                let e = staged.clone().unwrap_or_default();
                 ev["db_open"] = json!(staged.is_some());
                 match apply_get_filter(&req, &render_eph(&e)) {
                     Ok(x) => reply_body = format!("<data>{x}</data>"),
@@ -1190,6 +1191,10 @@ async fn serve_session(
                 let failing = matches!(fault.as_ref().map(|f| f.kind.as_str()), Some("rpc-error") | Some("delayed-error") | Some("malformed") | Some("wrong-id") | Some("no-ok") | Some("close-before"));
                 if !failing {
                     if let Some(s) = staged.as_mut() {
+                        // override / update: what is loaded becomes the whole configuration of the instance
+                        if matches!(lc.attr("action"), Some("override") | Some("update")) {
+                            s.clear();
+                        }
                         apply_update(s, &upd);
                         ev["state"] = eph_to_json(s);
                     }
@@ -1198,7 +1203,11 @@ async fn serve_session(
             }
             "commit" => {
                 ev["db_open"] = json!(staged.is_some());
-                if fault.is_none() || mutated {
+                // <check/> only validates, <confirmed/> is rolled back unless confirmed by a second commit
+                let cc = &req.children[0];
+                let effective = cc.child("check").is_none() && cc.child("confirmed").is_none();
+                ev["effective"] = json!(effective);
+                if (fault.is_none() || mutated) && effective {
                     if let Some(s) = staged.clone() {
                         st.lock().unwrap().eph = s;
                     }
